@@ -16,6 +16,8 @@ static INITIALISED: AtomicU64 = AtomicU64::new(0);
 /// entries that found a *different* cell being initialised (nested / cross-cell overlap)
 static OVERLAP: AtomicU64 = AtomicU64::new(0);
 static INSIDE_ANY: AtomicUsize = AtomicUsize::new(0);
+/// addresses of the distinct cells that were ever initialised in this process
+static CELLS: std::sync::Mutex<Vec<usize>> = std::sync::Mutex::new(Vec::new());
 
 /// Called by the harness at the start of every execution.
 pub fn new_epoch() {
@@ -28,6 +30,7 @@ pub struct Stats {
     pub contended: u64,
     pub initialised: u64,
     pub overlap: u64,
+    pub distinct_cells: u64,
 }
 
 pub fn stats() -> Stats {
@@ -35,6 +38,7 @@ pub fn stats() -> Stats {
         contended: CONTENDED.load(Ordering::SeqCst),
         initialised: INITIALISED.load(Ordering::SeqCst),
         overlap: OVERLAP.load(Ordering::SeqCst),
+        distinct_cells: CELLS.lock().unwrap().len() as u64,
     }
 }
 
@@ -84,6 +88,11 @@ pub mod sync {
                 INSIDE_ANY.fetch_sub(1, Ordering::SeqCst);
                 if this.ready_epoch.swap(epoch, Ordering::SeqCst) != epoch {
                     INITIALISED.fetch_add(1, Ordering::SeqCst);
+                    let addr = this as *const Self as usize;
+                    let mut cells = CELLS.lock().unwrap();
+                    if !cells.contains(&addr) {
+                        cells.push(addr);
+                    }
                 }
             }
             r
